@@ -126,6 +126,19 @@ type c02PStringer struct{ s string }
 
 func (p *c02PStringer) String() string { return p.s }
 
+// Stringers of numeric and bool kinds (enums with labels): printed through String(), so they are text like any other
+type c02Enum int
+
+func (e c02Enum) String() string { return "enum " + c02Marker }
+
+type c02Flag bool
+
+func (f c02Flag) String() string { return "flag " + c02Marker }
+
+type c02Ratio float64
+
+func (f c02Ratio) String() string { return "ratio " + c02Marker }
+
 func c02Ctx(swapped bool) pongo2.Context {
 	ctx := zooContext(c02Marker)
 	delete(ctx, "f_safe")
@@ -138,6 +151,10 @@ func c02Ctx(swapped bool) pongo2.Context {
 	ctx["tf"] = func() string { return m }
 	ctx["tfa"] = func(a string) any { return a + m }
 	ctx["tany"] = any(m)
+	ctx["tenum"] = c02Enum(3)
+	ctx["tflag"] = c02Flag(true)
+	ctx["tratio"] = c02Ratio(1.5)
+	ctx["tenums"] = []any{c02Enum(1), c02Flag(false), c02Ratio(0)}
 	ctx["tpv"] = c02PStringer{m}
 	ctx["tpp"] = &c02PStringer{m}
 	ctx["tpl"] = []any{c02PStringer{m}, &c02PStringer{"p" + m}, c02PStringer{m}}
@@ -161,7 +178,7 @@ func c02Ctx(swapped bool) pongo2.Context {
 	return ctx
 }
 
-var c02CtxVars = []string{"t1", "t2", "tl", "tm", "ts", "tf()", "tpv", "tpp", "tpl.0", "tpl.1", "tfa(t1)", "tfv()", "tfva(t2)", "tfva(1)", "tany", "tstruct.Field", "tstruct.List", "tl.0", "tm.a", "z_str", "z_stringer", "z_safevalue"}
+var c02CtxVars = []string{"t1", "t2", "tl", "tm", "ts", "tf()", "tenum", "tflag", "tratio", "tenums.0", "tenums.1", "tenums.2", "tpv", "tpp", "tpl.0", "tpl.1", "tfa(t1)", "tfv()", "tfva(t2)", "tfva(1)", "tany", "tstruct.Field", "tstruct.List", "tl.0", "tm.a", "z_str", "z_stringer", "z_safevalue"}
 
 var c02OptOutFilters = map[string]bool{"safe": true, "truncatechars_html": true, "truncatewords_html": true}
 var c02MarkupFilters = map[string]bool{"urlize": true, "urlizetrunc": true, "linebreaks": true, "linebreaksbr": true}
@@ -191,6 +208,14 @@ func c02SweepForms(filter string) []string {
 		"{{ t1|" + filter + p + "|" + filter + p + " }}",
 		"{{ t1|" + filter + p + " + t2 }}",
 	}
+	// values the engine itself marks safe (macro results) as the INPUT of the filter: the parameter is still tainted
+	forms = append(forms,
+		"{% macro sm(a) %}macro text{% endmacro %}{{ sm(1)|"+filter+":t1 }}",
+		"{% macro sm(a) %}macro text{% endmacro %}{{ sm(1)|"+filter+p+" }}{{ t1 }}{{ tenum }}",
+		"{% macro sm(a) %}macro text{% endmacro %}{% set sv = sm(1) %}{{ sv|"+filter+":t2 }}{% with w=sm(2) %}{{ w|"+filter+":ts }}{% endwith %}",
+		"{% macro sm(a) %}{% endmacro %}{{ sm(1)|"+filter+":t1 }}{{ sm(1)|"+filter+":tl }}",
+		"{{ tenum|"+filter+p+" }}{{ \"lit\"|"+filter+":tenum }}{{ tflag|"+filter+p+" }}",
+	)
 	if !c02MarkupFilters[filter] {
 		forms = append(forms,
 			"{% filter "+filter+p+" %}lit {{ t1 }}{% endfilter %}",
@@ -289,7 +314,7 @@ func c02Run(c *C) {
 		if f == "upper" {
 			// blocks rendered one by one through ExecuteBlocks
 			set, _ := newSet(map[string]string{"/base.tpl": "{% block b1 %}base {{ t2 }}{% endblock %}{% block b2 %}x{% endblock %}",
-				"/main.tpl": "{% extends \"/base.tpl\" %}{% block b1 %}{{ t1 }}{% for i in tl %}{{ i }}{% endfor %}{% with w=ts %}{{ w }}{% endwith %}{{ block.Super }}{% endblock %}{% block b2 %}{% macro m(a) %}{{ a }}{% endmacro %}{{ m(t2) }}{{ tm.a }}{% firstof t1 %}{% endblock %}"})
+				"/main.tpl": "{% extends \"/base.tpl\" %}{% block b1 %}{{ t1 }}{% for i in tl %}{{ i }}{% endfor %}{% with w=ts %}{{ w }}{% endwith %}{{ block.Super }}{% endblock %}{% block b2 %}{% macro m(a) %}{{ a }}{% endmacro %}{{ m(t2) }}{{ tm.a }}{% firstof t1 %}{{ block.Super|add:t1 }}{{ block.Super|default:t2 }}{{ block.Super + t1 }}{{ m(1)|add:t2 }}{{ tenum }}{% endblock %}"})
 			for _, name := range []string{"/main.tpl", "/base.tpl"} {
 				tpl, err := set.FromFile(name)
 				if err != nil {
